@@ -18,6 +18,16 @@ R19f totality of the partial operations in analyzer methods: every `max(..)`/`mi
      the call is the guarded arm of `.. if <collection> else ..`; every load/del `D[K]` of a dictionary
      attribute is dominated by `K in D` (or by `D.get(K)` having returned a value); a subscript with the
      result of `max(D, key=D.get)` on the same D is total.
+R19g escape audit: for every method of the analyzer classes, the explicit raise / assert sites that can leave it (resolved callees,
+     depth 3, handlers on the way honoured; next/max/min without fallback counted) are reduced to (exception type, raising function)
+     pairs. Each pair is (i) the business of another rule of this property (collection lookups: R19a/R19d; AnalyzerItem: R19c),
+     (ii) an assert whose condition is established by a dominating test in the same function, (iii) an entry of the justified table
+     below with its reason, or (iv) a violation: one exception out of one analyzer ends SemanticCheckAnalyzer.analyze, lint() answers
+     with a single generic 'Syntax error' on line 0 and every other diagnostic of the document is lost.
+R19h the analysis input tolerates name clashes: lsp_analysis.build_commands (and build_tags) merge the uod's own definitions with the
+     system definitions. A collection that *raises* on a second definition of a name (CommandCollection(iterable) adds with
+     exist_ok=False) must not be constructed from that merge: a uod command named `Stop`, `Wait` or `Mark` is accepted by the
+     engine and would end every analysis for that engine with one generic diagnostic.
 Decides the lookup discipline for all method texts and tag/command sets; exceptions inside pint
 are outside.
 """
@@ -41,6 +51,149 @@ JUSTIFIED_BLANK = {
          "line is adopted as name (blank lines parse to BlankNode) - confirmed by exhaustive probing of short lines",
          {"node.instruction_name", "node.line"}),
 }
+
+
+# (exception type, raising function) -> reason it cannot leave an analyzer
+JUSTIFIED_ESCAPES = {
+    ("TypeError", "NodeVisitorGeneric.visit"):
+        "raised for a node class without visit_<Class> method or a visitor that is not a generator: every node class has a visitor in "
+        "NodeVisitorGeneric (C02 R02a) and the analyzers override with generator methods only",
+    ("AssertionError", "MacroNode._find_call_path_to"):
+        "`assert self.children is not None`: NodeWithChildren.__init__ assigns a list and nothing assigns None",
+}
+# pairs that can only arise for a unit that is *in* the unit table: justified under the checked premise that are_comparable asks
+# get_unit_quantity_name(unit) (ValueError for a unit outside the table, caught at the analyzers' call sites) before it calls
+# get_compatible_unit_names(unit); the table's own consistency (every pint unit in it has a mapped dimensionality) is C21's business
+TABLE_UNIT_ONLY = {("AssertionError", "get_compatible_unit_names"), ("NotImplementedError", "get_compatible_unit_names"),
+                   ("Exception", "_get_pint_unit")}
+OTHER_RULES = {("ValueError", "CommandCollection.has"): "R19a/R19d", ("ValueError", "CommandCollection.get"): "R19a/R19d",
+               ("ValueError", "TagValueCollection.has"): "R19a/R19d", ("ValueError", "TagValueCollection.get"): "R19a/R19d",
+               ("ValueError", "TagCollection.has"): "R19a/R19d", ("ValueError", "TagCollection.get"): "R19a/R19d",
+               ("ValueError", "AnalyzerItem.__init__"): "R19c"}
+
+
+def _r19g(ctx, prog, res, classes) -> None:
+    from ..effects import Effects
+    ctx.rule("R19g", "no explicit raise/assert reachable from an analyzer leaves it")
+    eff = Effects(prog, res, partial_builtins=True)
+    pairs: dict = {}
+    for c in classes:
+        for m in c.methods.values():
+            for e in eff.escapes(m, 3):
+                pairs.setdefault((e.exc, e.site.split(":")[0]), []).append((m, e))
+    if len(pairs) < 5:
+        raise AnchorError(f"R19g: only {len(pairs)} (exception, function) pairs found for the analyzers (floor 5): the escape audit collapsed")
+    for (exc, fn), lst in sorted(pairs.items()):
+        inst = f"analyzers: {exc} from {fn}"
+        m, e = lst[0]
+        if (exc, fn) in OTHER_RULES:
+            ctx.ok("R19g", inst + f" (decided by {OTHER_RULES[(exc, fn)]})", trivial=True)
+            continue
+        if (exc, fn) in JUSTIFIED_ESCAPES:
+            ctx.ok("R19g", inst, {"rule": "R19g", "justified": JUSTIFIED_ESCAPES[(exc, fn)]})
+            continue
+        if (exc, fn) in TABLE_UNIT_ONLY:
+            ac = prog.func("openpectus.lang.exec.units:are_comparable")
+            ga = cfg_of(ac)
+            look = [n for n in ga.nodes if n.ast is not None and any(call_attr(c) == "get_unit_quantity_name" for c in n.calls())]
+            comp = [n for n in ga.nodes if n.ast is not None and any(call_attr(c) == "get_compatible_unit_names" for c in n.calls())]
+            via_ac = all("are_comparable" in (getattr(ee, "chain", None) or ()) or "are_comparable" in " ".join(getattr(ee, "chain", ()) or ()) for mm, ee in lst)
+            if look and comp and all(any(ga.dominates(l, c_) for l in look) for c_ in comp) and via_ac:
+                ctx.ok("R19g", inst + " (only for a unit of the unit table: are_comparable looks the unit up first)", trivial=True)
+                continue
+        if exc == "AssertionError":
+            # asserts in the analyzer function itself: discharged by a dominating test of the same condition
+            owner = next((mm for mm, ee in lst if mm.short == fn), None)
+            if owner is not None:
+                g = cfg_of(owner)
+                asserts = [n for n in g.nodes if n.kind == "stmt" and isinstance(n.ast, ast.Assert)]
+                undischarged = []
+                for a in asserts:
+                    want = {(t, pol) for t, pol in _atoms_of(a.ast.test)}
+                    have = set(facts_at(g, a, local_single_defs(owner)))
+                    # `not (A and B)` with A established gives `not B` (the early-return idiom `if A and B: report; return`)
+                    for e_, pol_ in g.conditions_at(a):
+                        if not pol_ and isinstance(e_, ast.BoolOp) and isinstance(e_.op, ast.And):
+                            parts = [_atoms_of(v) for v in e_.values]
+                            open_ = [p_ for p_ in parts if not (p_ and all(x in have for x in p_))]
+                            if len(open_) == 1 and len(open_[0]) == 1:
+                                t_, p_ = open_[0][0]
+                                have.add((t_, not p_))
+                    have |= {(_flip(t_), True) for t_, p_ in have if not p_ and _flip(t_)} | {(_flip(t_), False) for t_, p_ in have if p_ and _flip(t_)}
+                    if not want or not all(w in have for w in want):
+                        undischarged.append(a)
+                if asserts and not undischarged:
+                    ctx.ok("R19g", inst + " (each assert restates a dominating test)", {"rule": "R19g", "asserts": len(asserts)})
+                    continue
+                if undischarged:
+                    ctx.fail("R19g", owner, undischarged[0].ast, inst, f"`{norm(undischarged[0].ast)[:70]}` is not established by a dominating test: "
+                             "an AssertionError here ends the whole analysis and the editor loses every other diagnostic")
+                    continue
+        chain = " > ".join(e.chain) if getattr(e, "chain", None) else m.short
+        ctx.fail("R19g", m, m.node, inst, f"a {exc} raised in {fn} can leave {m.short} (chain {chain}; site {e.site}): SemanticCheckAnalyzer.analyze "
+                 "stops at the first exception, lint() answers with one generic 'Syntax error' on line 0 and all other diagnostics are lost - "
+                 "e.g. a tag whose unit the analysis does not know (`with_measurement_unit('NTU', ...)` in the uod) makes every Watch/Alarm/"
+                 "Simulate on it raise ValueError(\"Invalid unit: 'NTU'\")")
+
+
+def _r19h(ctx, prog) -> None:
+    ctx.rule("R19h", "the merged definitions are put into a collection that tolerates duplicate names")
+    mod = prog.module("openpectus.lsp.lsp_analysis")
+    n = 0
+    for fname in ("build_commands", "build_tags"):
+        f = mod.functions.get(fname)
+        if f is None:
+            raise AnchorError(f"lsp_analysis.{fname} missing")
+        ctx.analysed(f)
+        # does the function iterate a concatenation of two definition lists?
+        merges = [lp for lp in walk_no_nested(f.node) if isinstance(lp, ast.For) and isinstance(lp.iter, ast.BinOp) and isinstance(lp.iter.op, ast.Add)]
+        merges += [c for c in walk_no_nested(f.node) if isinstance(c, ast.ListComp) and any(
+            isinstance(gn.iter, ast.BinOp) and isinstance(gn.iter.op, ast.Add) for gn in c.generators)]
+        inst = f"lsp_analysis.{fname}: names defined twice do not raise"
+        n += 1
+        if not merges:
+            ctx.ok("R19h", inst + " (no merge of two definition lists)", trivial=True)
+            continue
+        bad = None
+        for c in walk_no_nested(f.node):
+            if not (isinstance(c, ast.Call) and isinstance(c.func, ast.Name) and c.args):
+                continue
+            try:
+                k = prog.cls(f"openpectus.lang.exec.commands:{c.func.id}") if "Command" in c.func.id else prog.cls(f"openpectus.lang.exec.tags:{c.func.id}")
+            except Exception:
+                continue
+            init = k.methods.get("__init__")
+            if init is None:
+                continue
+            # a constructor that adds its items with exist_ok False (positional or keyword constant)
+            for a in walk_no_nested(init.node):
+                if isinstance(a, ast.Call) and call_attr(a) == "add":
+                    flag = next((kw.value for kw in a.keywords if kw.arg == "exist_ok"), a.args[1] if len(a.args) > 1 else None)
+                    if isinstance(flag, ast.Constant) and flag.value is False:
+                        bad = c
+        if bad is None:
+            ctx.ok("R19h", inst)
+        else:
+            ctx.fail("R19h", f, bad, inst, f"`{norm(bad)[:60]}` is built from the uod's definitions concatenated with the system definitions and its "
+                     "constructor refuses a name it already has: `with_command(name=\"Stop\", ...)` is accepted by UodBuilder, "
+                     "validate_configuration() and Engine(), but every lint for that engine then raises 'A command named Stop already exists' "
+                     "and the editor gets a single generic diagnostic")
+    if n < 2:
+        raise AnchorError("R19h: build_commands / build_tags not both found")
+
+
+def _flip(t: str):
+    """`X is None` <-> `X is not None` (so that not(X is None) discharges `X is not None`)."""
+    if t.endswith(" is not None"):
+        return t[:-len(" is not None")] + " is None"
+    if t.endswith(" is None"):
+        return t[:-len(" is None")] + " is not None"
+    return None
+
+
+def _atoms_of(test: ast.AST):
+    from ..cfg import atoms
+    return list(atoms(test, True))
 
 
 def _justified_blank(f, x) -> bool:
@@ -105,6 +258,8 @@ def run(ctx) -> None:
                  ("R19e", "lint catches everything"), ("R19f", "max/min and dictionary subscripts are total")]:
         ctx.rule(r, d)
     funcs = [m for c in classes if not c.module.is_test for m in c.methods.values()]
+    _r19h(ctx, prog)
+    _r19g(ctx, prog, ctx.res, [c for c in classes if not c.module.is_test])
     # module-level helpers of the analyzer modules are part of the analysis code too (a partial operation moved into a
     # helper is still evaluated for every method text)
     seen_mods = []
